@@ -37,8 +37,9 @@
 (* table and a history-dependent cache MUST be rejected, thread-private scratch, *)
 (* guarded tables and read-only access MUST pass.                                *)
 (*                                                                               *)
-(* `last` records (thread, instance, step, kind, phase) of the latest access so  *)
-(* that a counterexample is directly a schedule that the harness can replay.     *)
+(* A counterexample is a schedule: the driver reads the thread that moved in     *)
+(* every step off the dumped trace (i, ph, pc per thread) and the harness        *)
+(* replays it on the real object (harness/conc.cpp --phase sched).               *)
 EXTENDS Integers, Sequences, FiniteSets, TLC, Json, IOUtils
 
 CONSTANTS NThreads,     \* number of threads (2..3)
@@ -74,8 +75,7 @@ Solo(fp, t, k, j, ov, rd) ==
 (* --algorithm ConstOps
 variables mem = [l \in Locs |-> InitT],
           once = [s \in Guarded |-> "uninit"],
-          results = [t \in Threads |-> <<>>],
-          last = <<0, 0, 0, "-", 0>>;
+          nfin = [t \in Threads |-> 0];
 
 fair process thr \in Threads
 variables k = 1, f = 1, i = 1, ph = 0, reads = <<>>;
@@ -85,7 +85,6 @@ inst: while k <= NInst do
         i := 1; ph := 0; reads := <<>>;
 acc:    while i <= Len(FP(f)) do
           with s = FP(f)[i] do
-            last := <<self, k, i, s.k, ph>>;
             if s.k = "R" then
               reads := Append(reads, mem[s.loc]); i := i + 1;
             elsif s.k = "W" then
@@ -110,23 +109,22 @@ acc:    while i <= Len(FP(f)) do
             end if;
           end with;
         end while;
-fin:    results[self] := Append(results[self], [f |-> f, k |-> k, reads |-> reads]);
+fin:    nfin[self] := nfin[self] + 1;      \* the instance returns: `reads` is its result (checked by Deterministic here)
         k := k + 1;
       end while;
 end process;
 end algorithm *)
 \* BEGIN TRANSLATION
-VARIABLES pc, mem, once, results, last, k, f, i, ph, reads
+VARIABLES pc, mem, once, nfin, k, f, i, ph, reads
 
-vars == << pc, mem, once, results, last, k, f, i, ph, reads >>
+vars == << pc, mem, once, nfin, k, f, i, ph, reads >>
 
 ProcSet == (Threads)
 
 Init == (* Global variables *)
         /\ mem = [l \in Locs |-> InitT]
         /\ once = [s \in Guarded |-> "uninit"]
-        /\ results = [t \in Threads |-> <<>>]
-        /\ last = <<0, 0, 0, "-", 0>>
+        /\ nfin = [t \in Threads |-> 0]
         (* Process thr *)
         /\ k = [self \in Threads |-> 1]
         /\ f = [self \in Threads |-> 1]
@@ -145,61 +143,60 @@ inst(self) == /\ pc[self] = "inst"
                          /\ pc' = [pc EXCEPT ![self] = "acc"]
                     ELSE /\ pc' = [pc EXCEPT ![self] = "Done"]
                          /\ UNCHANGED << f, i, ph, reads >>
-              /\ UNCHANGED << mem, once, results, last, k >>
+              /\ UNCHANGED << mem, once, nfin, k >>
 
 acc(self) == /\ pc[self] = "acc"
              /\ IF i[self] <= Len(FP(f[self]))
                    THEN /\ LET s == FP(f[self])[i[self]] IN
-                             /\ last' = <<self, k[self], i[self], s.k, ph[self]>>
-                             /\ IF s.k = "R"
-                                   THEN /\ reads' = [reads EXCEPT ![self] = Append(reads[self], mem[s.loc])]
-                                        /\ i' = [i EXCEPT ![self] = i[self] + 1]
-                                        /\ UNCHANGED << mem, once, ph >>
-                                   ELSE /\ IF s.k = "W"
-                                              THEN /\ mem' = [mem EXCEPT ![s.loc] = WTok(self, k[self], i[self])]
-                                                   /\ i' = [i EXCEPT ![self] = i[self] + 1]
-                                                   /\ UNCHANGED << once, ph >>
-                                              ELSE /\ IF s.k = "Init"
-                                                         THEN /\ IF ph[self] = 0
-                                                                    THEN /\ once[s.loc] # "busy"
-                                                                         /\ IF once[s.loc] = "uninit"
-                                                                               THEN /\ once' = [once EXCEPT ![s.loc] = "busy"]
-                                                                                    /\ ph' = [ph EXCEPT ![self] = 1]
-                                                                                    /\ i' = i
-                                                                               ELSE /\ i' = [i EXCEPT ![self] = i[self] + 1]
-                                                                                    /\ UNCHANGED << once, 
-                                                                                                    ph >>
-                                                                         /\ mem' = mem
-                                                                    ELSE /\ mem' = [mem EXCEPT ![s.loc] = SV]
-                                                                         /\ once' = [once EXCEPT ![s.loc] = "done"]
-                                                                         /\ ph' = [ph EXCEPT ![self] = 0]
-                                                                         /\ i' = [i EXCEPT ![self] = i[self] + 1]
-                                                         ELSE /\ IF ph[self] = 0
-                                                                    THEN /\ IF mem[Flag(s.loc)] = SetT
-                                                                               THEN /\ i' = [i EXCEPT ![self] = i[self] + 1]
-                                                                                    /\ ph' = ph
-                                                                               ELSE /\ ph' = [ph EXCEPT ![self] = 1]
-                                                                                    /\ i' = i
-                                                                         /\ mem' = mem
-                                                                    ELSE /\ IF ph[self] = 1
-                                                                               THEN /\ mem' = [mem EXCEPT ![s.loc] = SV]
-                                                                                    /\ ph' = [ph EXCEPT ![self] = 2]
-                                                                                    /\ i' = i
-                                                                               ELSE /\ mem' = [mem EXCEPT ![Flag(s.loc)] = SetT]
-                                                                                    /\ ph' = [ph EXCEPT ![self] = 0]
-                                                                                    /\ i' = [i EXCEPT ![self] = i[self] + 1]
-                                                              /\ once' = once
-                                        /\ reads' = reads
+                             IF s.k = "R"
+                                THEN /\ reads' = [reads EXCEPT ![self] = Append(reads[self], mem[s.loc])]
+                                     /\ i' = [i EXCEPT ![self] = i[self] + 1]
+                                     /\ UNCHANGED << mem, once, ph >>
+                                ELSE /\ IF s.k = "W"
+                                           THEN /\ mem' = [mem EXCEPT ![s.loc] = WTok(self, k[self], i[self])]
+                                                /\ i' = [i EXCEPT ![self] = i[self] + 1]
+                                                /\ UNCHANGED << once, ph >>
+                                           ELSE /\ IF s.k = "Init"
+                                                      THEN /\ IF ph[self] = 0
+                                                                 THEN /\ once[s.loc] # "busy"
+                                                                      /\ IF once[s.loc] = "uninit"
+                                                                            THEN /\ once' = [once EXCEPT ![s.loc] = "busy"]
+                                                                                 /\ ph' = [ph EXCEPT ![self] = 1]
+                                                                                 /\ i' = i
+                                                                            ELSE /\ i' = [i EXCEPT ![self] = i[self] + 1]
+                                                                                 /\ UNCHANGED << once, 
+                                                                                                 ph >>
+                                                                      /\ mem' = mem
+                                                                 ELSE /\ mem' = [mem EXCEPT ![s.loc] = SV]
+                                                                      /\ once' = [once EXCEPT ![s.loc] = "done"]
+                                                                      /\ ph' = [ph EXCEPT ![self] = 0]
+                                                                      /\ i' = [i EXCEPT ![self] = i[self] + 1]
+                                                      ELSE /\ IF ph[self] = 0
+                                                                 THEN /\ IF mem[Flag(s.loc)] = SetT
+                                                                            THEN /\ i' = [i EXCEPT ![self] = i[self] + 1]
+                                                                                 /\ ph' = ph
+                                                                            ELSE /\ ph' = [ph EXCEPT ![self] = 1]
+                                                                                 /\ i' = i
+                                                                      /\ mem' = mem
+                                                                 ELSE /\ IF ph[self] = 1
+                                                                            THEN /\ mem' = [mem EXCEPT ![s.loc] = SV]
+                                                                                 /\ ph' = [ph EXCEPT ![self] = 2]
+                                                                                 /\ i' = i
+                                                                            ELSE /\ mem' = [mem EXCEPT ![Flag(s.loc)] = SetT]
+                                                                                 /\ ph' = [ph EXCEPT ![self] = 0]
+                                                                                 /\ i' = [i EXCEPT ![self] = i[self] + 1]
+                                                           /\ once' = once
+                                     /\ reads' = reads
                         /\ pc' = [pc EXCEPT ![self] = "acc"]
                    ELSE /\ pc' = [pc EXCEPT ![self] = "fin"]
-                        /\ UNCHANGED << mem, once, last, i, ph, reads >>
-             /\ UNCHANGED << results, k, f >>
+                        /\ UNCHANGED << mem, once, i, ph, reads >>
+             /\ UNCHANGED << nfin, k, f >>
 
 fin(self) == /\ pc[self] = "fin"
-             /\ results' = [results EXCEPT ![self] = Append(results[self], [f |-> f[self], k |-> k[self], reads |-> reads[self]])]
+             /\ nfin' = [nfin EXCEPT ![self] = nfin[self] + 1]
              /\ k' = [k EXCEPT ![self] = k[self] + 1]
              /\ pc' = [pc EXCEPT ![self] = "inst"]
-             /\ UNCHANGED << mem, once, last, f, i, ph, reads >>
+             /\ UNCHANGED << mem, once, f, i, ph, reads >>
 
 thr(self) == inst(self) \/ acc(self) \/ fin(self)
 
@@ -232,12 +229,11 @@ Conflict(a, b) == a[2] # "-" /\ a[2] = b[2] /\ (a[1] = "W" \/ b[1] = "W")
 NoRace == \A t1, t2 \in Threads : t1 < t2 => ~Conflict(NextAcc(t1), NextAcc(t2))
 
 Deterministic ==
-  \A t \in Threads : \A j \in 1..Len(results[t]) :
-     LET r == results[t][j] IN r.reads = Solo(FP(r.f), t, r.k, 1, <<>>, <<>>)
+  \A t \in Threads : pc[t] = "fin" => reads[t] = Solo(FP(f[t]), t, k[t], 1, <<>>, <<>>)
 
 TypeOK == /\ \A t \in Threads : k[t] \in 1..(NInst + 1) /\ f[t] \in 1..Len(Footprints) /\ ph[t] \in 0..2
           /\ \A s \in Guarded : once[s] \in {"uninit", "busy", "done"}
-          /\ \A t \in Threads : Len(results[t]) <= NInst
+          /\ \A t \in Threads : nfin[t] \in 0..NInst /\ (pc[t] = "Done" => nfin[t] = NInst)
 
 Finishes == <>(\A t \in Threads : pc[t] = "Done")
 
